@@ -703,7 +703,11 @@ func runCloudEvents(rc *RunCtx) {
 	failAt := map[int]bool{}
 	var signedInputs [][]byte
 	key := "k1"
-	mkSigner := func(k string) cloudevents.Signer {
+	// selfRotate: a limited-use key: the signer installs its successor (FormatterFilter.Rotate)
+	// while it is signing; the signature in progress is still made with the old key
+	selfRotate := tp.Choose(4, "self-rotating-signer") == 0
+	var mkSigner func(k string) cloudevents.Signer
+	mkSigner = func(k string) cloudevents.Signer {
 		return func(ctx context.Context, b []byte) (string, error) {
 			simrt.Yield("signer")
 			signN++
@@ -711,8 +715,15 @@ func runCloudEvents(rc *RunCtx) {
 			if failAt[signN] {
 				return "", fmt.Errorf("injected signer failure #%d", signN)
 			}
-			// (a signature is an opaque string: separators below 0x20, quotes and backslashes are legal in it)
-			return fmt.Sprintf("hmac(%s,%x)%s", k, fnv(string(b)), sigTails[signN%len(sigTails)]), nil
+			res := fmt.Sprintf("hmac(%s,%x)%s", k, fnv(string(b)), sigTails[signN%len(sigTails)])
+			if selfRotate && signN%2 == 0 {
+				key = fmt.Sprintf("%s+", k)
+				if err := ff.Rotate(mkSigner(key)); err != nil {
+					rc.Failf("C18.rotate", "from-signer", "Rotate called by the signer failed: %v", err)
+				}
+				simrt.Probe("ce.signer-rotated-itself")
+			}
+			return res, nil
 		}
 	}
 	hasSigner := signerMode != 0
@@ -807,6 +818,7 @@ func runCloudEvents(rc *RunCtx) {
 			}
 			e := &el.Event{Type: el.EventType(typ), CreatedAt: created, Payload: payload, Formatted: map[string][]byte{}}
 			signBefore := signN
+			keyInForce := key // the signer installed when this event is formatted
 			out, err := ff.Process(context.Background(), e)
 			val, stored := e.Format(storeKey)
 			descs = append(descs, fmt.Sprintf("type=%s payload=%d -> err=%v", typ, kind, err != nil))
@@ -960,7 +972,7 @@ func runCloudEvents(rc *RunCtx) {
 							rc.Failf("C18.serialized", "contains-signature", "the serialized document already contains a signature")
 						}
 					}
-					want := fmt.Sprintf("hmac(%s,%x)%s", key, fnv(string(given)), sigTails[signN%len(sigTails)])
+					want := fmt.Sprintf("hmac(%s,%x)%s", keyInForce, fnv(string(given)), sigTails[signN%len(sigTails)])
 					if str("serialized_hmac") != want {
 						rc.Failf("C18.hmac", "", "serialized_hmac %q is not the (current) signer's result %q for the serialized bytes", str("serialized_hmac"), want)
 					}
